@@ -252,24 +252,37 @@ Fixpoint scatter {A} (l : list A) (idx : list nat) (rows : list A) : list A :=
   | _, _ => l
   end.
 
-Definition batch_features (k : nat) (ws : list (list (list (option Z)))) : option (list feats) :=
-  (* find_peak + get_array_peak, row by row *)
-  match sequence (map (fun w => pick_peak (chans (denan_wav w))) ws) with
+(* find_peak + get_array_peak + invert_peak_waveform + the first find_trough are
+   row-wise array operations: per row (peak trace index, real trace, state) *)
+Definition row_head (w : list (list (option Z))) : option (nat * list Z * st) :=
+  let cs := chans (denan_wav w) in
+  match pick_peak cs with
   | None => None
-  | Some pks =>
-      let xs := map (fun '(w, (tr, _)) => nth tr (chans (denan_wav w)) []) (combine ws pks) in
-      (* invert_peak_waveform + first find_trough on all rows *)
-      match sequence (map (fun '(x, (_, pk)) => stage1 x pk) (combine xs pks)) with
+  | Some (tr, pk) =>
+      let x := nth tr cs [] in
+      match stage1 x pk with
       | None => None
-      | Some qs =>
-          (* swap branch on the selected subset only *)
-          let idx := select_idx 0 qs in
-          match sequence (map (fun i => swap_row (nth i xs []) (nth i qs (mkSt 0 0 0 [] 0 0))) idx) with
-          | None => None
-          | Some rows =>
-              let qs' := scatter qs idx rows in
-              sequence (map (fun '(q, (tr, _)) => tail_stage k tr q) (combine qs' pks))
-          end
+      | Some q => Some (tr, x, q)
+      end
+  end.
+
+Definition dummy_st : st := mkSt 0 0 0 [] 0 0.
+
+Definition batch_features (k : nat) (ws : list (list (list (option Z)))) : option (list feats) :=
+  match sequence (map row_head ws) with
+  | None => None
+  | Some hs =>
+      let xs := map (fun h => snd (fst h)) hs in     (* arr_peak_real *)
+      let qs := map snd hs in                        (* df / arr_peak rows *)
+      (* the swap branch works on the selected subset only ... *)
+      let idx := select_idx 0 qs in
+      match sequence (map (fun i => swap_row (nth i xs []) (nth i qs dummy_st)) idx) with
+      | None => None
+      | Some rows =>
+          (* ... and is written back by position *)
+          let qs' := scatter qs idx rows in
+          (* find_tip, half_peak_point, recovery_point: row-wise again *)
+          sequence (map (fun hq => tail_stage k (fst (fst (fst hq))) (snd hq)) (combine hs qs'))
       end
   end.
 
